@@ -447,9 +447,10 @@ VARIABLES dt,       \* name of the declared dtype
           lastpos,  \* position of the last edit (edits go left to right)
           atend,    \* every edit so far appended at the end
           ntail,    \* productions appended at the end (edits that did so included)
+          act,      \* the edit that produced the format (published: the binding checks that every edit occurs)
           ref,      \* Ref(format)
           impl      \* outcome of the transcription of the format check
-vars == <<dt, D, prods, ned, lastpos, atend, ntail, ref, impl>>
+vars == <<dt, D, prods, ned, lastpos, atend, ntail, act, ref, impl>>
 fmt == Flat(prods)
 
 Editable(i) == prods[i] \notin {OPEN, OPEN2, CLOSE}
@@ -461,38 +462,38 @@ MarkProds == {<<m>> : m \in Marks}
 Placeable(a, i) == a \in MarkProds => DepthAt(prods, i) = 0
 Alpha == IF ned = 0 THEN AlphaFull ELSE IF Wide THEN AlphaFull ELSE AlphaMedium
 
-Set_(ps, e, lp, ae, nt, f) ==
-  /\ prods' = ps /\ ned' = ned + e /\ lastpos' = lp /\ atend' = ae /\ ntail' = nt
+Set_(a, ps, e, lp, ae, nt, f) ==
+  /\ act' = a /\ prods' = ps /\ ned' = ned + e /\ lastpos' = lp /\ atend' = ae /\ ntail' = nt
   /\ ref' = Ref(f) /\ impl' = ImplRun(D.t, f)
   /\ UNCHANGED <<dt, D>>
-Set(ps, e, lp, ae, nt) == Set_(ps, e, lp, ae, nt, Flat(ps))
+Set(a, ps, e, lp, ae, nt) == Set_(a, ps, e, lp, ae, nt, Flat(ps))
 
 InsertAt(ps, i, a) == SubSeq(ps, 1, i - 1) \o <<a>> \o SubSeq(ps, i, Len(ps))
 Subst == /\ ned < Edits
          /\ \E i \in (lastpos + 1)..Len(prods) : /\ Editable(i)
-              /\ \E a \in Alpha \ {prods[i]} : Placeable(a, i) /\ Set([prods EXCEPT ![i] = a], 1, i, FALSE, ntail)
+              /\ \E a \in Alpha \ {prods[i]} : Placeable(a, i) /\ Set("Subst", [prods EXCEPT ![i] = a], 1, i, FALSE, ntail)
 Insert == /\ ned < Edits
           /\ \E i \in (lastpos + 1)..Len(prods) :
-               /\ \E a \in Alpha : Placeable(a, i) /\ Set(InsertAt(prods, i, a), 1, i, FALSE, ntail)
+               /\ \E a \in Alpha : Placeable(a, i) /\ Set("Insert", InsertAt(prods, i, a), 1, i, FALSE, ntail)
 InsertEnd == /\ ned < Edits /\ ntail < MaxTail /\ (Deep \/ ntail = 0)
-             /\ \E a \in Alpha : Set(Append(prods, a), 1, Len(prods) + 1, atend, IF Deep THEN ntail + 1 ELSE MaxTail)
+             /\ \E a \in Alpha : Set("InsertEnd", Append(prods, a), 1, Len(prods) + 1, atend, IF Deep THEN ntail + 1 ELSE MaxTail)
 Delete == /\ ned < Edits
           /\ \E i \in (lastpos + 1)..Len(prods) : /\ Editable(i)
-               /\ Set(SubSeq(prods, 1, i - 1) \o SubSeq(prods, i + 1, Len(prods)), 1, i - 1, FALSE, ntail)
+               /\ Set("Delete", SubSeq(prods, 1, i - 1) \o SubSeq(prods, i + 1, Len(prods)), 1, i - 1, FALSE, ntail)
 WrapAll == /\ ned < Edits /\ lastpos = 0 /\ prods # <<>> /\ \A i \in 1..Len(prods) : prods[i] \notin MarkProds
-           /\ \E o \in {OPEN, OPEN2} : Set(<<o>> \o prods \o <<CLOSE>>, 1, Len(prods) + 2, FALSE, ntail)
+           /\ \E o \in {OPEN, OPEN2} : Set("WrapAll", <<o>> \o prods \o <<CLOSE>>, 1, Len(prods) + 2, FALSE, ntail)
 WrapOne == /\ ned < Edits
            /\ \E i \in (lastpos + 1)..Len(prods) : /\ Editable(i) /\ prods[i] \notin Neutrals
-                /\ Set(SubSeq(prods, 1, i - 1) \o <<OPEN, prods[i], CLOSE>> \o SubSeq(prods, i + 1, Len(prods)), 1, i + 2, FALSE, ntail)
+                /\ Set("WrapOne", SubSeq(prods, 1, i - 1) \o <<OPEN, prods[i], CLOSE>> \o SubSeq(prods, i + 1, Len(prods)), 1, i + 2, FALSE, ntail)
 Repeat2 == /\ ned < Edits
            /\ \E i \in (lastpos + 1)..Len(prods) : /\ prods[i] = OPEN
-                /\ Set([prods EXCEPT ![i] = OPEN2], 1, i, FALSE, ntail)
+                /\ Set("Repeat2", [prods EXCEPT ![i] = OPEN2], 1, i, FALSE, ntail)
 \* after the format has run past its end: a few more productions from the narrow alphabet
 Tack == /\ atend /\ ntail < MaxTail
-        /\ \E a \in AlphaNarrow : Set(Append(prods, a), 0, Len(prods) + 1, TRUE, ntail + 1)
+        /\ \E a \in AlphaNarrow : Set("Tack", Append(prods, a), 0, Len(prods) + 1, TRUE, ntail + 1)
 
 Init == /\ dt \in DtNames /\ D = DtInfo(dt) /\ prods \in Spines(dt) \cup {<<>>}
-        /\ ned = 0 /\ lastpos = 0 /\ atend = TRUE /\ ntail = 0
+        /\ ned = 0 /\ lastpos = 0 /\ atend = TRUE /\ ntail = 0 /\ act = "Init"
         /\ ref = Ref(Flat(prods)) /\ impl = ImplRun(D.t, Flat(prods))
 Next == Subst \/ Insert \/ InsertEnd \/ Delete \/ WrapAll \/ WrapOne \/ Repeat2 \/ Tack
 Spec == Init /\ [][Next]_vars
@@ -534,7 +535,7 @@ Publish ==
   (Dump /\ Case) =>
     PrintT("@@" \o ToJson([dt |-> dt, f |-> fmt, ok |-> ref.ok, big |-> ref.big, size |-> ref.size, fl |-> ref.flags,
                             cn |-> Tup(ref.canon), isz |-> ISz, v |-> VCalc, ir |-> ICalc, ie |-> impl.ev,
-                            vd |-> IF HasDt THEN VDt ELSE "", ird |-> IF HasDt THEN IDt ELSE "", ned |-> ned, nt |-> ntail]))
+                            vd |-> IF HasDt THEN VDt ELSE "", ird |-> IF HasDt THEN IDt ELSE "", ned |-> ned, nt |-> ntail, act |-> act]))
 PublishDt ==
   (Dump /\ prods = <<>> /\ ned = 0 /\ ntail = 0) =>
     PrintT("@@" \o ToJson([dtype |-> dt, size |-> D.size, leaves |-> [k \in 1..Len(D.leaves) |->
